@@ -225,6 +225,83 @@ def shared_table_rule(R7, mods):
                 R7.ok(inst, nontrivial=(len(R7.nontrivial) < 400))
 
 
+def state_copy_rule(R, mods):
+    """For every class with a copy() method that builds a new instance of the class: the attributes that methods other than __init__ assign (`self.x = ..`, `self.x += ..`)
+    or change in place (`self.x[k] = v`, `self.x.append(..)`, `self.x.__setitem__(..)`) are the state of an instance; copy() must set each of them on the new object (or hand it
+    to the constructor).  An attribute it forgets keeps its initial value in the copy while the original has moved on (shared with C06.D12 / C07.D14)."""
+    MUTS = set(MUT) | {'__setitem__', '__delitem__'}
+    n_cls = 0
+    for m in mods:
+        for cname, cdef in m.classes.items():
+            meths = m.methods(cname)
+            cp = meths.get('copy')
+            if cp is None:
+                continue
+            news = [n for n in ast.walk(cp) if isinstance(n, ast.Assign) and len(n.targets) == 1 and isinstance(n.targets[0], ast.Name) and isinstance(n.value, ast.Call)
+                    and u(n.value.func) in (cname, 'self.__class__', 'type(self)')]
+            if not news:
+                continue
+            n_cls += 1
+            new_name = news[0].targets[0].id
+            ctor_args = set(u(a) for a in news[0].value.args) | set(u(k.value) for k in news[0].value.keywords)
+            state = {}
+            for mname, fn in meths.items():
+                if mname in ('__init__', 'copy'):
+                    continue
+                sname = fn.args.args[0].arg if fn.args.args else 'self'
+                for n in ast.walk(fn):
+                    tgts = []
+                    if isinstance(n, ast.Assign):
+                        tgts = n.targets
+                    elif isinstance(n, ast.AugAssign):
+                        tgts = [n.target]
+                    for t in tgts:
+                        b = t
+                        while isinstance(b, ast.Subscript):
+                            b = b.value
+                        if isinstance(b, ast.Attribute) and isinstance(b.value, ast.Name) and b.value.id == sname:
+                            state.setdefault(b.attr, '%s.%s' % (cname, mname))
+                    if isinstance(n, ast.Call) and isinstance(n.func, ast.Attribute) and n.func.attr in MUTS and isinstance(n.func.value, ast.Attribute) \
+                            and isinstance(n.func.value.value, ast.Name) and n.func.value.value.id == sname:
+                        state.setdefault(n.func.value.attr, '%s.%s' % (cname, mname))
+            set_on_copy = set()
+            inplace = set()
+            for mname, fn in meths.items():
+                if mname in ('__init__', 'copy'):
+                    continue
+                sname = fn.args.args[0].arg if fn.args.args else 'self'
+                for n in ast.walk(fn):
+                    if isinstance(n, ast.Call) and isinstance(n.func, ast.Attribute) and n.func.attr in MUTS and isinstance(n.func.value, ast.Attribute) \
+                            and isinstance(n.func.value.value, ast.Name) and n.func.value.value.id == sname:
+                        inplace.add(n.func.value.attr)
+                    if isinstance(n, (ast.Assign, ast.AugAssign)):
+                        for t in (n.targets if isinstance(n, ast.Assign) else [n.target]):
+                            if isinstance(t, ast.Subscript) and isinstance(t.value, ast.Attribute) and isinstance(t.value.value, ast.Name) and t.value.value.id == sname:
+                                inplace.add(t.value.attr)
+            for n in ast.walk(cp):
+                if isinstance(n, (ast.Assign, ast.AugAssign)):
+                    for t in (n.targets if isinstance(n, ast.Assign) else [n.target]):
+                        if isinstance(t, ast.Attribute) and isinstance(t.value, ast.Name) and t.value.id == new_name:
+                            set_on_copy.add(t.attr)
+                            if isinstance(n, ast.Assign) and t.attr in inplace and u(n.value) == 'self.%s' % t.attr:
+                                R.violation('%s.copy:%s:fresh' % (cname, t.attr), 'state-copy-alias:%s:%s' % (cname, t.attr),
+                                            '%s.copy() hands the new object the very container self.%s that the methods of the class change in place: a store in the copy is a store in the original'
+                                            % (cname, t.attr), where(m, n), witness='p = pool.copy(); p[a] = v; pool[a]')
+                if isinstance(n, ast.Call) and isinstance(n.func, ast.Name) and n.func.id == 'setattr' and n.args and isinstance(n.args[0], ast.Name) and n.args[0].id == new_name:
+                    set_on_copy.add('*')
+                if isinstance(n, ast.Call) and isinstance(n.func, ast.Attribute) and n.func.attr == 'update' and u(n.func.value) == '%s.__dict__' % new_name:
+                    set_on_copy.add('*')
+            for attr, who in sorted(state.items()):
+                inst = '%s.copy:%s' % (cname, attr)
+                if '*' in set_on_copy or attr in set_on_copy or any(('self.%s' % attr) in a for a in ctor_args):
+                    R.ok(inst, sample='%s.copy carries %s (updated by %s)' % (cname, attr, who))
+                else:
+                    R.violation(inst, 'state-copy:%s:%s' % (cname, attr), '%s updates self.%s, but %s.copy() builds the new %s without it: the copy keeps the initial value while the original has moved on'
+                                % (who, attr, cname, cname), where(m, cp), witness='m2.pool = m.pool.copy(); a read inside a cell stored before the copy')
+    if not n_cls:
+        raise AnalysisError('no state class with a copy() method found (mpool expected)')
+
+
 ONE_SHOT = ('map', 'filter', 'zip', 'reversed', 'iter', 'enumerate')
 
 
@@ -818,6 +895,9 @@ def run(ctx, report):
                       'inside a function): the first call consumes it, every later call finds it empty', floor=1)
     oneshot_rule(R15, mods)
 
+    R16 = report.rule('C12.D16', 'copy() of a state class carries every attribute its methods update: a copied machine state answers like the state it was copied from', floor=2)
+    state_copy_rule(R16, [ctx.mod('eval_abs')])
+
     R13 = report.rule('C12.D13', 'a function whose results are cached (functools.lru_cache / cache, memoize decorators) hands out the same object for the same argument: no caller edits '
                       'such a result (directly, as element of a list of results, or through a loop variable)', floor=1)
     memoised_results_rule(R13, mods)
@@ -948,6 +1028,8 @@ def _reaches(b, m, all_binds, fn):
 
 
 MUTANTS = [
+    ('mpool-copy-drops-mem', 'miasmx/expression/expression_eval_abstract.py', "        p.pool_mem = dict(self.pool_mem)\n        return p", "        return p", 'C12.D16'),
+    ('mpool-copy-aliases-mem', 'miasmx/expression/expression_eval_abstract.py', "        p.pool_mem = dict(self.pool_mem)\n        return p", "        p.pool_mem = self.pool_mem\n        return p", 'C12.D16'),
     ('popad-shared-table', 'miasmx/arch/ia32_sem.py', "        regs = [eax, ecx, edx, ebx, esp, ebp, esi, edi]\n    regs.reverse()", "        regs = ia32_rexpr.reg_list32\n    regs.reverse()", 'C12.D7'),
     ('yacc-syspath-no-finally', 'ply/yacc.py', "            finally:\n                # (the import fails when no table has been written yet)\n                sys.path = old_path\n", "            finally:\n                pass\n            sys.path = old_path\n", 'C12.D6'),
     ('eval-cache-default-dict', 'miasmx/expression/expression_eval_abstract.py', "    def eval_expr_no_cache(self, e, eval_cache = None):\n        if eval_cache is None:\n            # (a default dictionary would be shared by every machine)\n            eval_cache = {}\n", "    def eval_expr_no_cache(self, e, eval_cache = {}):\n", 'C12.D2'),
